@@ -136,7 +136,7 @@ def main(tier, seed, replay):
                         jobs.append((["-seed=%d" % (seed + 7919 * k), "-scenario=" + sc, "-n=0"], "%d_%s_%d" % (seed, sc, k)))
         with cf.ThreadPoolExecutor(max_workers=min(8, L.NCPU)) as ex:
             results = list(ex.map(lambda j: run_job(hexe, mexe, j[0], j[1]), jobs))
-        first_diff, seen_mon = None, set()
+        first_diff, seen_mon, shown_kind = None, set(), {}
         for r in results:
             if "err" in r:
                 p = L.write_replay(PROP, "harness_failure.txt", "args: %s\n%s" % (" ".join(r["args"]), r["err"]))
@@ -171,7 +171,8 @@ def main(tier, seed, replay):
                     if m in seen_mon:
                         continue
                     seen_mon.add(m)
-                    if len(seen_mon) <= 3:
+                    shown_kind[f[1]] = shown_kind.get(f[1], 0) + 1
+                    if shown_kind[f[1]] <= 2:   # at most two replays per monitor
                         hist = [h for h in split_hist(lines) if m in h]
                         p = L.write_replay(PROP, "monitor_%s_%s.txt" % (f[1], L.digest(m)),
                                            "args: %s\nproperty monitor %s failed on the implementation: %s\nhistory (replay: ./check C15 --replay <this file>):\n%s\n"
